@@ -11,28 +11,28 @@ import (
 // replay file contains. The schedule is Seed (PRNG) preceded by the explicit
 // Choices prefix.
 type Scenario struct {
-	Prop     string         `json:"prop"`
-	Seed     uint64         `json:"seed"`
-	Faulty   bool           `json:"faulty"`
-	Skip     bool           `json:"skip_initial_verification,omitempty"`
-	Delay    bool           `json:"delay_initial_verification,omitempty"`
-	Suppress bool           `json:"suppress_global_callbacks,omitempty"`
-	NoVerify bool           `json:"no_verify_method,omitempty"`
-	NoGlobalCB bool         `json:"no_global_callbacks,omitempty"` // Params.OnNewConfig / OnWatchedError left nil
-	Defaults Part           `json:"defaults"`
-	Sources  []SourceSpec   `json:"sources"`
-	Clients  []ClientSpec   `json:"clients"`
-	GlobalCB string         `json:"global_cb"` // instant | slow | block
-	Bias     simrt.Bias     `json:"bias"`
-	Shutdown string         `json:"shutdown"` // cancel | done
-	Late     bool           `json:"late_calls,omitempty"`
-	MaxSteps int            `json:"max_steps"`
-	Rates    map[string]int `json:"fault_rates,omitempty"`
-	Choices  []int          `json:"choices,omitempty"`
-	File     *FileSpec      `json:"file,omitempty"`
-	Ez       *EzSpec        `json:"ez,omitempty"`
-	Stream   *StreamSpec    `json:"stream,omitempty"`
-	Wrap     *WrapSpec      `json:"wrap,omitempty"`
+	Prop       string         `json:"prop"`
+	Seed       uint64         `json:"seed"`
+	Faulty     bool           `json:"faulty"`
+	Skip       bool           `json:"skip_initial_verification,omitempty"`
+	Delay      bool           `json:"delay_initial_verification,omitempty"`
+	Suppress   bool           `json:"suppress_global_callbacks,omitempty"`
+	NoVerify   bool           `json:"no_verify_method,omitempty"`
+	NoGlobalCB bool           `json:"no_global_callbacks,omitempty"` // Params.OnNewConfig / OnWatchedError left nil
+	Defaults   Part           `json:"defaults"`
+	Sources    []SourceSpec   `json:"sources"`
+	Clients    []ClientSpec   `json:"clients"`
+	GlobalCB   string         `json:"global_cb"` // instant | slow | block
+	Bias       simrt.Bias     `json:"bias"`
+	Shutdown   string         `json:"shutdown"` // cancel | done
+	Late       bool           `json:"late_calls,omitempty"`
+	MaxSteps   int            `json:"max_steps"`
+	Rates      map[string]int `json:"fault_rates,omitempty"`
+	Choices    []int          `json:"choices,omitempty"`
+	File       *FileSpec      `json:"file,omitempty"`
+	Ez         *EzSpec        `json:"ez,omitempty"`
+	Stream     *StreamSpec    `json:"stream,omitempty"`
+	Wrap       *WrapSpec      `json:"wrap,omitempty"`
 }
 
 type SourceSpec struct {
